@@ -7,6 +7,13 @@
 //@fn rodbus/src/client/listener.rs | trait Listener::update | tags=C13 | nobody
 //@|    ensures final(self).log() == old(self).log().push(_value),
         }
+        // a listener that ignores every notification (its conceptual log stays empty until someone looks - nobody can)
+        pub struct NullListener;
+        impl NullListener {
+            #[verifier::external_body]
+            pub fn create<T>() -> (r: Box<dyn Listener<T>>) ensures r.log().len() == 0 { unimplemented!() }
+        }
+//@trusted client::NullListener::create: shim (a boxed listener whose log is empty)
 //@item rodbus/src/client/listener.rs | ClientState | derive=Copy,Clone
 //@item rodbus/src/client/listener.rs | PortState | derive=Copy,Clone
 
